@@ -247,3 +247,13 @@ def run(ctx: Ctx, rep: Report, tier: str):
     rep.rule("C01.R18", "a folder delete that meets children makes progress: the children are looked up under the folder's current path on the deleting side and force-synced, "
              "and so is the folder (C04.R7) - otherwise the delete is retried until it is given up and the trees stay different", 3)
     section(rep, lambda: dir_delete_rechecks_kids(ctx, rep, "C01.R18"))
+    from rules.common import disposal_conditions
+    rep.rule("C01.R19", "work is dropped only where the state machine says so: every ignore / unignore / clear of an entry in the engine's decision code is reached under exactly "
+             "the inventoried path condition (rules/disposal.json, 24 sites)", 20)
+    section(rep, lambda: disposal_conditions(ctx, rep, "C01.R19"))
+    from rules.common import retry_thresholds_ordered
+    rep.rule("C01.R20", "retry thresholds are ordered: in handle_cloud_file_not_found_error plain punting stops strictly below the give-up threshold, so the recovery between them runs", 1)
+    section(rep, lambda: retry_thresholds_ordered(ctx, rep, "C01.R20"))
+    from rules.C07 import C07 as _C07b
+    _alias(rep, ["C07.R4"], "C01.R21", "two different files of one name never end up booked as equal: an existing peer file is adopted silently only when its hash equals the hash "
+           "of the bytes being created, computed by the same provider (C07.R4)", 3, lambda: _C07b(ctx, rep).r4())
